@@ -110,6 +110,7 @@ theorem C05_log_grows_only_on_ok (verifyOk : St → Batch → Bool) (s : St) (g 
     left; simp only [gstep, step]
     cases (finalize s id mf).2 <;> rfl
   | unstage => left; rfl
+  | modAcct k op out => left; rfl
 
 /-! ## Single steps (hold in every state, reachable or not) -/
 
@@ -182,6 +183,42 @@ theorem C05_ok_implies_staged (verifyOk : St → Batch → Bool) (s : St) (f : F
       simp [attachAux, hsp] at hb'
       subst hb'
       exact ⟨b0, rows, rfl, by simp [hs', attachAux], by simpa [attachAux] using hF⟩
+
+/-- **Only the account's CURRENT output.**  Signatures are released only if, for every account of the pending
+batch, the outpoint stored in the database *at the moment of the sign request* is an input of the batch
+transaction.  In particular: if an account RPC (deposit / withdraw / renew – `modAcct`) moved an account of the
+pending batch to another outpoint after the proposal was verified, a following sign request releases nothing
+(it fails with "account input not found") and stages nothing. -/
+theorem C05_release_requires_stored_outpoints_spent (verifyOk : St → Batch → Bool) (s : St) (f : Faults)
+    (ns : List Key) (pv : List Out) (S : List Sig) (N : List Key)
+    (h : (step verifyOk s (.sign f ns pv)).2 = .sign (.ok S N)) :
+    ∃ b, s.pending = some b ∧
+      ∀ d ∈ b.diffs, ∃ a, getAccount s.db d.acct = some a ∧ a.outpoint ∈ b.tx.ins := by
+  obtain ⟨b, _, hb, _, hF⟩ := C05_ok_implies_staged verifyOk s f ns pv S N h
+  refine ⟨b, hb, fun d hd => ?_⟩
+  obtain ⟨σ, _, a, idx, ha, _, hin, _⟩ := hF.exists_of_mem_left hd
+  exact ⟨a, ha, List.mem_of_getElem? hin⟩
+
+theorem C05_moved_account_is_not_signed (verifyOk : St → Batch → Bool) (s : St) (b : Batch) (d : Diff)
+    (a : Acct) (f : Faults) (ns : List Key) (pv : List Out)
+    (hb : s.pending = some b) (hd : d ∈ b.diffs) (ha : getAccount s.db d.acct = some a)
+    (hmoved : a.outpoint ∉ b.tx.ins) :
+    (∀ S N, (step verifyOk s (.sign f ns pv)).2 ≠ .sign (.ok S N)) ∧
+    (step verifyOk s (.sign f ns pv)).1.db = s.db := by
+  have hno : ∀ S N, (step verifyOk s (.sign f ns pv)).2 ≠ .sign (.ok S N) := by
+    intro S N h
+    obtain ⟨b', hb', hall⟩ := C05_release_requires_stored_outpoints_spent verifyOk s f ns pv S N h
+    rw [hb] at hb'; cases hb'
+    obtain ⟨a', ha', hin⟩ := hall d hd
+    rw [ha] at ha'; cases ha'
+    exact hmoved hin
+  refine ⟨hno, ?_⟩
+  simp only [step] at *
+  cases hbs : batchSign (attachAux s ns pv) f with
+  | mk s' o =>
+    have : s' = attachAux s ns pv :=
+      batchSign_not_ok_db _ _ _ _ hbs (fun S N ho => hno S N (by rw [hbs, ho]))
+    simp [this, attachAux]
 
 /-! ## The handler's Sign case
 
@@ -299,6 +336,7 @@ theorem grun_eq_run (verifyOk : St → Batch → Bool) (s : St) (g : Ghost) (ops
       | finalize id mf => cases h : (step verifyOk s (.finalize id mf)).2 <;> try rfl
                           rename_i o; cases o <;> rfl
       | unstage => cases h : (step verifyOk s .unstage).2 <;> rfl
+      | modAcct k op out => cases h : (step verifyOk s (.modAcct k op out)).2 <;> rfl
     have := ih (gstep verifyOk s g op).1 (gstep verifyOk s g op).2
     simp only [grun, run, List.zip_cons_cons, List.foldl_cons]
     rw [hs] at this
@@ -411,6 +449,12 @@ example :
     (lastOkValidate ((ops.take 2).zip (run (fun _ b => b.vflag) (initSt Ex.accts Ex.orders) (ops.take 2)).2)).map (·.tid) = some 2 ∧
     lastOkValidate (ops.zip r.2) = none ∧
     (step (fun _ b => b.vflag) r.1 (.sign noFaults [2] [50, 20, 21])).2 = .sign .panic := by decide
+
+/-- an account of the pending batch is moved by an RPC between proposal and sign request: nothing is released
+(hypotheses of `C05_moved_account_is_not_signed` are met) -/
+example : (run (fun _ b => b.vflag) (initSt Ex.accts Ex.orders)
+    [.validate Ex.b, .modAcct 1 77 78, .sign noFaults [2] [50, 20, 21]]).2.getLast? =
+    some (.sign (.errSign .input)) := by decide
 
 /-- signer fault at the second signer call: error, nothing staged (hypothesis of
 `C05_sign_fail_stages_nothing` is met) -/
